@@ -95,6 +95,9 @@ func knownPath() string {
 
 func execSpec(sp RunSpec, known *KnownFindings) *RunResult {
 	opt := RunOpts{Props: map[string]bool{sp.Prop: true}, Known: known, Fuel: sp.Fuel, Mode: sp.Mode, Stop: sp.Stop}
+	if sp.Prop == "ALL" {
+		opt.Props = nil
+	}
 	return Generate(sp.Seed, sp.Profile, opt)
 }
 
@@ -117,6 +120,10 @@ func cmdCheck(args []string) {
 	}
 	if t := os.Getenv("VERIF_TIER"); t != "" && (t == "quick" || t == "thorough") {
 		tier = t
+	}
+	if prop == "ALL" {
+		cmdSurvey(tier)
+		return
 	}
 	mix, ok := propMix[prop]
 	if !ok {
@@ -311,7 +318,7 @@ func reportViolation(prop string, tr *Trace, v Violation, sp RunSpec) string {
 	if v.StepIx+1 < len(cut.Steps) {
 		cut.Steps = cut.Steps[:v.StepIx+1]
 	}
-	min := Shrink(cut, v.Sig(), opt, 240*time.Second, 400)
+	min := Shrink(cut, v.Sig(), opt, time.Duration(envInt("VERIF_SHRINK_S", 150))*time.Second, 1500)
 	rf := &ReplayFile{Engine: 1, Property: prop, Signature: v.Sig(), Message: v.Msg, Mode: sp.Mode, Fuel: sp.Fuel, Minimised: true, OrigSteps: len(tr.Steps), OrigOps: countOps(tr), Trace: min}
 	name := fmt.Sprintf("%s-%s-%d.json", prop, short(sha([]byte(v.Sig()))), tr.Cfg.Seed)
 	path := filepath.Join("/verif/replays", name)
@@ -374,4 +381,78 @@ func cmdReplay(args []string) {
 	}
 	fmt.Println("not reproduced")
 	os.Exit(0)
+}
+
+// cmdSurvey: development aid — runs seeds with all oracles on, no stop, and tabulates
+// violation signatures (never used by a registered check).
+func cmdSurvey(profile string) {
+	n := int(envInt("VERIF_MAX_RUNS", 64))
+	base := uint64(envInt("VERIF_SEED", 1))
+	self, _ := os.Executable()
+	var mu sync.Mutex
+	next := 0
+	type agg struct {
+		n     int
+		seed  uint64
+		msg   string
+	}
+	sigs := map[string]*agg{}
+	var wg sync.WaitGroup
+	for w := 0; w < 16; w++ {
+		wg.Add(1)
+		go func() {
+			defer wg.Done()
+			cmd := exec.Command(self, "worker")
+			cmd.Env = append(os.Environ(), "GOMAXPROCS=2", "GOGC=300")
+			stdin, _ := cmd.StdinPipe()
+			stdout, _ := cmd.StdoutPipe()
+			cmd.Stderr = os.Stderr
+			cmd.Start()
+			rd := bufio.NewReaderSize(stdout, 1<<20)
+			for {
+				mu.Lock()
+				if next >= n {
+					mu.Unlock()
+					break
+				}
+				i := next
+				next++
+				mu.Unlock()
+				sp := RunSpec{Index: i, Seed: runSeed(base, i), Profile: profile, Prop: "ALL", Fuel: 5_000_000}
+				b, _ := json.Marshal(sp)
+				stdin.Write(append(b, '\n'))
+				line, err := rd.ReadBytes('\n')
+				if err != nil {
+					fmt.Println("worker died on seed", sp.Seed)
+					break
+				}
+				var r indexedResult
+				json.Unmarshal(line, &r)
+				mu.Lock()
+				if r.Harness != "" {
+					fmt.Println("harness:", r.Harness)
+				}
+				for _, v := range r.Violations {
+					a := sigs[v.Sig()]
+					if a == nil {
+						a = &agg{seed: r.Seed, msg: v.Msg}
+						sigs[v.Sig()] = a
+					}
+					a.n++
+				}
+				mu.Unlock()
+			}
+			stdin.Close()
+			cmd.Wait()
+		}()
+	}
+	wg.Wait()
+	ks := make([]string, 0)
+	for k := range sigs {
+		ks = append(ks, k)
+	}
+	sort.Strings(ks)
+	for _, k := range ks {
+		fmt.Printf("%4d  %s  (seed %d)\n      %s\n", sigs[k].n, k, sigs[k].seed, trunc(sigs[k].msg, 300))
+	}
 }
